@@ -144,7 +144,11 @@ PROPS["C03"] = dict(
 )
 
 PROPS["C14"]["e2"] = ["c14"]
-PROPS["C14"]["bounds"] += "; BigInt narrowing (as_u64, as_int): every mathematical integer"
+PROPS["C14"]["bounds"] += ("; BigInt narrowing (as_u64, as_int): every mathematical integer; Value comparison / checked_add / checked_sub / clamped_sub: every pair of 7 bundle shapes "
+                           "(absent, empty, policy without assets, 1-2 assets, two policies) over 2 policies x 2 asset names, coins and quantities over all u64 including 0")
+PROPS["C14"]["assumptions"] = ["Value operations are decided component-wise on concrete bundle shapes; commutativity / associativity of addition and 'subtraction undoes addition' follow from component-wise exactness "
+                               "and are not separate obligations; bundles with more than 2 policies / 2 names per policy are outside the bound",
+                               "decimal-string forms (to_str / from_str) are not decided (core::fmt under Kani does not finish)"]
 
 PROPS["C09"] = dict(
     bounds="each of the seven script sources present/absent with one arbitrary Plutus witness; no / 1 / 2 extra witness datums (thorough: also an empty list)",
